@@ -1,9 +1,8 @@
 import Irismod.Props.C17
 open Irismod Irismod.Oracle Irismod.Spec.C17 Irismod.Props.C17
-#print axioms aggregates_not_correct
-#print axioms aggregates_correct_partial
-#print axioms max_all_negative_is_zero
-#print axioms max_correct_of_nonneg
+#print axioms aggregates_correct
+#print axioms max_all_negative_regression
+#print axioms max_correct
 #print axioms min_correct
 #print axioms avg_exact
 #print axioms float_domain_roundtrip
@@ -28,4 +27,4 @@ open Irismod Irismod.Oracle Irismod.Spec.C17 Irismod.Props.C17
 -- non-vacuity: the demo history (two feeds, batches on both, an all-negative `max` batch, an automatic
 -- pause, a shrinking edit, a stranger's start) reaches a state with stored values, a paused and a running
 -- feed; the hypotheses of `done_appends` hold for a further batch on it and its conclusion is visible
-#eval s!"nonvacuous {decide ((viewOf demo "f1").map (·.data) = ["7.00000000"]) && decide ((viewOf demo "f2").map (·.data) = ["0.75000000"]) && decide ((log { now := 1700000000000000000 } "f1" demoOps).map (·.data) = ["7.00000000", "0.00000000", "2.50000000"]) && mirrorB demo && boundedB demo && demo.paused.contains "f2" && demo.running.contains "f1" && decide (ctxStateOf demo "f2" = some .paused) && decide ((viewOf (cbDone demo "f2" 9 2 ["n-1.5", "n-2.5"]) "f2").map (·.data) = ["-2.00000000", "0.75000000"]) && decide ((valuesOf demo "f2").all (·.1 < 9)) && decide (batches "f1" demoOps = [1, 2, 3]) && decide (batches "f2" demoOps = [1, 2])}"
+#eval s!"nonvacuous {decide ((viewOf demo "f1").map (·.data) = ["7.00000000"]) && decide ((viewOf demo "f2").map (·.data) = ["0.75000000"]) && decide ((log { now := 1700000000000000000 } "f1" demoOps).map (·.data) = ["7.00000000", "-3.00000000", "2.50000000"]) && mirrorB demo && boundedB demo && demo.paused.contains "f2" && demo.running.contains "f1" && decide (ctxStateOf demo "f2" = some .paused) && decide ((viewOf (cbDone demo "f2" 9 2 ["n-1.5", "n-2.5"]) "f2").map (·.data) = ["-2.00000000", "0.75000000"]) && decide ((valuesOf demo "f2").all (·.1 < 9)) && decide (batches "f1" demoOps = [1, 2, 3]) && decide (batches "f2" demoOps = [1, 2])}"
